@@ -234,8 +234,7 @@ func procOps(o *Out, seed uint64, n int, corpus string) {
 		o.Run(fmt.Sprintf("perftbin %s %d %d", hexOf(fen), 2+rng.Intn(2), rng.Intn(2)))
 		o.Stat("perft_binary_runs")
 	}
-	garbageLines := []string{"", "xyzzy", "go", "stop", "position", "go depth 1", "joho go depth 1", "debug on", "setoption name Hash value 1", "ponderhit", "go wtime abc", "go nodes", "go mate 3 depth 1", "ucinewgame", "uci", "\t", "go infinite infinite depth 1 movetime 5",
-		"position fen", "position fen 8/8 w", "position kiwipete"}
+	garbageLines := []string{"", "xyzzy", "go", "stop", "position", "go depth 1", "joho go depth 1", "debug on", "setoption name Hash value 1", "ponderhit", "go wtime abc", "go nodes", "go mate 3 depth 1", "ucinewgame", "uci", "\t", "go infinite infinite depth 1 movetime 5"}
 	for i := 0; i < n; i++ {
 		var toks []string
 		rounds := 1 + rng.Intn(2)
